@@ -40,7 +40,7 @@ const char *__ubsan_default_options(void)
 #if defined(__SANITIZE_THREAD__)
 const char *__tsan_default_options(void)
 {
-    return "halt_on_error=0:exitcode=86:second_deadlock_stack=1:report_signal_unsafe=0";
+    return "halt_on_error=1:exitcode=86:second_deadlock_stack=1:report_signal_unsafe=0:history_size=4";
 }
 #endif
 
@@ -138,6 +138,7 @@ volatile int vrt_abort_armed;
 volatile uint64_t vrt_aborts_seen;
 size_t vrt_alloc_cap = VRT_ALLOC_CAP;
 void (*vrt_alloc_hook)(int kind, void *p);
+void (*vrt_fail_hook)(void);
 
 static const char *outdir = ".";
 static const struct vrt_harness *H;
@@ -374,6 +375,9 @@ void vrt_fail(const char *key, const char *fmt, ...)
     if (vrt_verbose) vrt_log("VIOLATION(monitor) key=%s: %s\n", key, msg);
     record_viol(S, key, msg);
     if (!in_case) _exit(98);
+    /* a harness running on a foreign stack (fibres) gets the chance to switch
+     * back to the worker's own stack first; the hook does not return then */
+    if (vrt_fail_hook) vrt_fail_hook();
     siglongjmp(vrt_case_jmp, 1);
 }
 
